@@ -26,6 +26,7 @@ import (
 //	failedrt  the value dsl.ResultType returns after it reported an error (too many arguments,
 //	       or not at the top level): `var RT = ResultType(...)` of a broken definition, used later
 //	call   the result of the nested DSL call Call (ArrayOf(String), MapOf(..), CollectionOf(..))
+//	scheme the security scheme named S, by value (`var Basic = BasicAuthSecurity("a")`)
 //	strs   []string{S}
 //	rnd    expr.NewDeterministicRandomizer()
 type Arg struct {
@@ -52,6 +53,10 @@ type Program struct {
 	// Dangling is non-empty for programs of the dangling-reference family: it names the kind
 	// of reference to the never-defined name (const zz) that the program contains.
 	Dangling string `json:"dangling,omitempty"`
+	// Strict (dangling family): acceptance is a violation by itself, whether or not the accepted
+	// design still mentions the name (a reference that is silently dropped is as wrong as one
+	// that is kept); set when nothing in the program can replace the referring construct.
+	Strict bool `json:"strict,omitempty"`
 }
 
 const holeFn = "$HOLE"
@@ -95,6 +100,8 @@ func (a Arg) render(sb *strings.Builder, hole []Call) {
 		sb.WriteString(`ResultType("application/vnd.failed", "Failed", func() {}, "extra")`)
 	case "call":
 		a.Call.render(sb, hole)
+	case "scheme":
+		sb.WriteString("Scheme_" + a.S)
 	case "strs":
 		sb.WriteString("[]string{" + strconv.Quote(a.S) + "}")
 	case "rnd":
@@ -187,6 +194,8 @@ func (a Arg) class() string {
 		return "fn"
 	case "dt", "ut", "call":
 		return "type"
+	case "scheme":
+		return "scheme"
 	case "strs":
 		return "slice"
 	}
